@@ -16,6 +16,8 @@ fn vername(uri: &str) -> &'static str {
     match uri { "https://in-toto.io/Link/v0.2" => "LinkV0_2", "https://slsa.dev/provenance/v0.1" => "SLSAProvenanceV0_1", "https://slsa.dev/provenance/v0.2" => "SLSAProvenanceV0_2", _ => "?" }
 }
 pub fn run(sc: &Value) -> Value {
+    // a statement parsed earlier in this process (state that outlives a call must not matter)
+    if !sc["parsed_before"].is_null() { let _ = serde_json::from_str::<StatementWrapper>(&build(&sc["parsed_before"]).to_string()); }
     let doc = build(&sc["doc"]);
     let parsed: Result<StatementWrapper, _> = serde_json::from_str(&doc.to_string());
     match parsed {
